@@ -72,8 +72,67 @@ var bedMu sync.Mutex
 
 func proxyBin() string { return filepath.Join(verifRoot, "bin", "mosproxy.race") }
 
-// NewBed starts fake upstreams and the proxy. name must be unique within the check.
+// errBedSetup marks harness-side set-up problems (ports taken, ...): never a verdict about the proxy.
+type errBedSetup struct{ err error }
+
+func (e errBedSetup) Error() string { return "bed setup: " + e.err.Error() }
+
+// NewBed starts fake upstreams and the proxy; harness-side set-up problems and port clashes are
+// retried with fresh ports. An error that is not errBedSetup means the proxy itself failed to start.
 func NewBed(c *Ctx, name string, o BedOpts) (*Bed, error) {
+	var b *Bed
+	var err error
+	for attempt := 0; attempt < 5; attempt++ {
+		n := name
+		if attempt > 0 {
+			n = fmt.Sprintf("%s.retry%d", name, attempt)
+		}
+		b, err = newBedOnce(c, n, o)
+		if err == nil {
+			return b, nil
+		}
+		_, setup := err.(errBedSetup)
+		clash := b != nil && b.Proxy != nil && (b.Proxy.LogContains("address already in use"))
+		if !setup && !clash {
+			return b, err
+		}
+		if b != nil {
+			b.Stop()
+		}
+		c.Ev.Count("bed_setup_retries", 1)
+		time.Sleep(200 * time.Millisecond)
+	}
+	if b != nil {
+		b.Stop()
+	}
+	return nil, errBedSetup{err}
+}
+
+// listenBoth returns a fake server listening on UDP and TCP on one port (the udp upstream
+// falls back to TCP on the same port).
+func listenBoth(tag string) (*fakeup.Server, error) {
+	var err error
+	for i := 0; i < 30; i++ {
+		ports, e := proxyproc.FreePorts("127.0.0.1", 1)
+		if e != nil {
+			err = e
+			continue
+		}
+		addr := fmt.Sprintf("127.0.0.1:%d", ports[0])
+		s := fakeup.NewServer(tag)
+		if err = s.ListenUDP(addr); err != nil {
+			continue
+		}
+		if err = s.ListenTCP(addr); err != nil {
+			s.Close()
+			continue
+		}
+		return s, nil
+	}
+	return nil, err
+}
+
+func newBedOnce(c *Ctx, name string, o BedOpts) (*Bed, error) {
 	if len(o.Listeners) == 0 {
 		o.Listeners = allListeners
 	}
@@ -86,7 +145,7 @@ func NewBed(c *Ctx, name string, o BedOpts) (*Bed, error) {
 	os.MkdirAll(b.Dir, 0755)
 	ca, err := pki.NewCA("verif-ca")
 	if err != nil {
-		return nil, err
+		return nil, errBedSetup{err}
 	}
 	b.CA = ca
 	caPath := filepath.Join(b.Dir, "ca.pem")
@@ -120,10 +179,7 @@ func NewBed(c *Ctx, name string, o BedOpts) (*Bed, error) {
 		var err error
 		switch spec.Transport {
 		case "udp":
-			err = s.ListenUDP("127.0.0.1:0")
-			if err == nil { // the udp upstream falls back to TCP on the same port
-				err = s.ListenTCP(s.Addr["udp"])
-			}
+			s, err = listenBoth(tag)
 		case "tcp":
 			err = s.ListenTCP("127.0.0.1:0")
 		case "tls":
@@ -139,7 +195,7 @@ func NewBed(c *Ctx, name string, o BedOpts) (*Bed, error) {
 		}
 		if err != nil {
 			b.closeUps()
-			return nil, fmt.Errorf("fake upstream %s: %w", tag, err)
+			return nil, errBedSetup{fmt.Errorf("fake upstream %s: %w", tag, err)}
 		}
 		b.Up[tag] = s
 		addr := s.Addr[spec.Transport]
@@ -175,7 +231,7 @@ func NewBed(c *Ctx, name string, o BedOpts) (*Bed, error) {
 	ports, err := proxyproc.FreePorts("127.0.0.1", len(o.Listeners)+1)
 	if err != nil {
 		b.closeUps()
-		return nil, err
+		return nil, errBedSetup{err}
 	}
 	y.WriteString("servers:\n")
 	for i, kind := range o.Listeners {
@@ -508,4 +564,19 @@ func countMosRaces(res *proxyproc.Result) int {
 		}
 	}
 	return n
+}
+
+
+// startFailure classifies a NewBed error: harness-side set-up problems are inconclusive,
+// a proxy that does not come up with a valid configuration is a violation.
+func (c *Ctx) startFailure(err error, where string) {
+	if _, setup := err.(errBedSetup); setup {
+		c.Inconclusive("bed set-up failed (" + where + "): " + err.Error())
+		return
+	}
+	msg := err.Error()
+	if len(msg) > 3000 {
+		msg = msg[:3000]
+	}
+	c.Violation("proxy-start-failed", "the proxy did not start with a valid configuration ("+where+"): "+msg, map[string]any{"where": where, "err": msg})
 }
